@@ -111,7 +111,7 @@ func init() {
 		ID:    "C08",
 		Level: "model_checking",
 		Rule: "sources: (a) every corpus program and every single-token deviation of the hand-written corpus (so that a diagnostic occurs at every token position), each re-rendered with every layout in which <=1 gap (thorough: <=2 for programs of <=7 tokens) deviates, the gap taking each of 25 separators (blank lines, tabs, VT, FF, CR, CR LF, U+0085, U+00A0, comments with quotes/keywords/non-ASCII ending in LF or CR) and all-gaps-same renderings; " +
-			"(b) operator chains of 2..6 operands in which exactly the k-th operation fails, with parenthesised operands, under the same layouts; (c) scaled sources whose offsets cross the 1/2/3-byte varint ranges and the 4096-byte page, as newline padding (large line numbers) and comment padding (large columns). " +
+			"(b) operator chains of 2..6 operands in which exactly the k-th operation fails, with parenthesised operands, under the same layouts; (c) programs exactly at / beyond the operand-stack and block-nesting limits (the position of the limit error is predicted by the stack model of the reference evaluator) and scaled sources whose offsets cross the 1/2/3-byte varint ranges and the 4096-byte page, as newline padding (large line numbers) and comment padding (large columns). " +
 			"Oracle per source: reference lexer/parser/evaluator predict the offset of the first compile diagnostic, of the runtime error and of every warning; every printed line:col must map back to a byte offset, every quoted token must be the source text ending there, 'at end' = end of input; the dump's line table = newline offsets; identical diagnostics through ParseFile under 3-4 chunkings; identical error/warning text after dump+load.",
 		Subs:           []*fw.Sub{subC08},
 		BudgetQuick:    100,
@@ -142,7 +142,8 @@ func init() {
 			}
 			// (c) scaled
 			for _, s := range gen.ScaledFamilies(c.Thorough()) {
-				if strings.HasPrefix(s.Name, "pad") || strings.HasPrefix(s.Name, "lines") {
+				if strings.HasPrefix(s.Name, "pad") || strings.HasPrefix(s.Name, "lines") || strings.HasPrefix(s.Name, "atlimit") ||
+					strings.HasPrefix(s.Name, "stackdepth") || strings.HasPrefix(s.Name, "nest-") || strings.HasPrefix(s.Name, "vars-") {
 					do(s.Src)
 				}
 			}
